@@ -340,6 +340,16 @@ ADDENDA5 = {
     'C20': 'Converts the .xls workbooks shipped with the repository through the real xlrd path (reference model built from an independent xlrd read); Eqpt rows on FUSED sites; service rows on a workbook with own west values.',
 }
 
+# additions made with the wave-6 seeded changes (DESIGN.md 8.10)
+ADDENDA6 = {
+    'C02': 'Includes one crossing of every amplifier model of the test, example and OpenROADM v4 / v5 libraries at operator gains from 0 dB to flatmax.',
+    'C04': 'The band of each model is taken from the documents (library entry, advanced-configuration file, default) and compared with the built element.',
+    'C08': 'Includes complete hand-written line systems through designed_network(no_insert_edfas=True) and a Raman fibre longer than the maximum span length.',
+    'C09': 'Includes the power sweep of transmission_simulation (fibres unchanged by the per-power redesign, documented powers visited).',
+    'C10': 'Includes two ROADMs joined without any fibre.',
+    'C17': 'Includes a node policy of one kind together with per-degree targets of another kind.',
+}
+
 
 def main():
     checks = []
@@ -353,6 +363,8 @@ def main():
             text = text + ' ' + ADDENDA4[pid]
         if pid in ADDENDA5:
             text = text + ' ' + ADDENDA5[pid]
+        if pid in ADDENDA6:
+            text = text + ' ' + ADDENDA6[pid]
         checks.append({
             'property_id': pid,
             'quick_cmd': f'./check {pid} --tier quick',
